@@ -108,22 +108,22 @@ def obstacles(index: RepoIndex, rep, rule: str) -> None:
                       'the obstacle loop does not iterate over a list collected beforehand '
                       '(an obstacle could be moved twice)')
         return
-    d = _listcomp_def(w_, loop_it.id)
-    ok = d is not None and not d[4] and d[3] == ('true',)
-    lc = d[1] if d else None
-    if ok:
-        g = lc.generators
-        ok = len(g) == 1 and src(w.expand(g[0].iter, w_.ren)) in (
-            'S.grid.area.positions()', "S.grid.area.positions('all')") \
-            and isinstance(g[0].target, ast.Name) and src(lc.elt) == g[0].target.id \
-            and len(g[0].ifs) == 1
-        if ok:
-            pv = g[0].target.id
-            cond = src(w.expand(g[0].ifs[0], w_.ren))
-            ok = cond == f'isinstance(S.grid[{pv}], MovingObstacle)'
-    rep.check(bool(ok), rule, TRANS, 'move_obstacles', fl, src(lc) if lc is not None else '',
-              'the obstacle positions are not `[p for p in grid.area.positions() if '
-              'isinstance(grid[p], MovingObstacle)]` collected once before any movement',
+    from ..cellstream import StreamReader
+    reader = StreamReader(index, f.module, w, w_.ren)
+    d = w.single_def(loop_it.id)
+    st = reader.read(loop_it)
+    ok = d is not None and d[0] == 'value' and not d[4] and d[3] == ('true',) and \
+        st is not None and st.kind == 'cells' and st.grid == 'S.grid' and \
+        [src(c) for c in st.filters] == ['isinstance(O, MovingObstacle)']
+    lc = d[1] if d and d[0] == 'value' else None
+    if d is not None and d[0] == 'value' and st is None:
+        raise AnalysisError('move_obstacles: the obstacle list '
+                            f'`{src(d[1])[:80]}` is outside the grammar of cell streams')
+    rep.check(bool(ok), rule, TRANS, 'move_obstacles', fl, src(lc)[:160] if lc is not None else '',
+              'the obstacle positions are not every position of the state grid (row by row) '
+              'whose cell is a MovingObstacle, collected once before any movement'
+              + (f': {st.kind} of {st.grid} filtered by {[src(c) for c in st.filters]}'
+                 if st is not None else ''),
               'obstacle list')
     muts = [e for e in w_.effects if e.kind == 'call' and e.target.split('.')[0] == loop_it.id]
     rep.check(not muts, rule, TRANS, 'move_obstacles', fl,
@@ -150,33 +150,40 @@ def obstacles(index: RepoIndex, rep, rule: str) -> None:
               'full-support index')
     if not okd:
         return
-    cd = _listcomp_def(w_, cname)
-    if cd is None:
+    cd = w.single_def(cname)
+    cst = reader.read(ast.Name(cname, ast.Load())) if cd is not None else None
+    if cd is None or cd[0] != 'value':
         rep.violation(rule, TRANS, 'move_obstacles', sw.line, cname,
-                      'the candidate list is not a single list comprehension')
+                      'the candidate list is not built by one expression')
         return
+    if cst is None:
+        raise AnalysisError('move_obstacles: the candidate list '
+                            f'`{src(cd[1])[:80]}` is outside the grammar of cell streams')
     clc = cd[1]
     in_loop = bool(cd[4]) and src(cd[4][0][0]) == src(loop_t)
     rep.check(in_loop, rule, TRANS, 'move_obstacles', clc.lineno, src(clc)[:120],
               'the candidate cells are not computed inside the per-obstacle loop (they must '
               'see the moves already made)', 'candidates at its turn')
-    g = clc.generators
-    okc = len(g) == 1 and isinstance(g[0].target, ast.Name) and src(clc.elt) == g[0].target.id
-    if okc:
-        it = g[0].iter
-        okc = isinstance(it, ast.Call) and src(it.func) == 'get_manhattan_boundary' and \
-            _boundary_args(it, src(loop_t))
+    okc = cst.kind == 'nbrs' and cst.centre == src(loop_t)
     rep.check(bool(okc), rule, TRANS, 'move_obstacles', clc.lineno, src(clc)[:160],
-              'candidates are not drawn from get_manhattan_boundary(position, distance=1) of '
-              'this obstacle', 'candidates from the 4-neighbourhood')
+              'candidates are not drawn from the four neighbours of this obstacle '
+              f'(get_manhattan_boundary(position, distance=1)): {cst.kind} around '
+              f'`{cst.centre}`', 'candidates from the 4-neighbourhood')
     if not okc:
         return
-    nv = g[0].target.id
+    nv = 'P'
     evl = Evaluator(index)
     m2 = FnModel(index, f, ['S', 'A'], evl)
-    cond_f = formula_of(ast.BoolOp(ast.And(), list(g[0].ifs)) if len(g[0].ifs) > 1
-                        else g[0].ifs[0]) if g[0].ifs else ('true',)
-    cond_f = m2.walk.expand_formula(cond_f, m2.ren, stop=[nv])
+    import copy as _copy
+
+    class _O(ast.NodeTransformer):
+        def visit_Name(self, n):
+            if n.id == 'O':
+                return ast.parse(f'{cst.grid or "S.grid"}[P]', mode='eval').body
+            return n
+    fl_ = [_O().visit(_copy.deepcopy(c)) for c in cst.filters]
+    cond_f = formula_of(ast.BoolOp(ast.And(), fl_) if len(fl_) > 1 else fl_[0]) if fl_ \
+        else ('true',)
 
     def spec(wd, e):
         ins = wd.vals.get(('inside', nv))
@@ -376,28 +383,36 @@ def teleport(index: RepoIndex, rep, rule: str) -> None:
                   'partner pod would be impossible)', 'full-support index')
         if not ok:
             continue
-        cd = _listcomp_def(m, cname)
-        if cd is None:
+        from ..cellstream import StreamReader
+        cd = w.single_def(cname)
+        if cd is None or cd[0] != 'value':
             rep.violation(rule, TRANS, 'teleport', e.line, cname,
-                          'the destination list is not a single list comprehension')
+                          'the destination list is not built by one expression')
             continue
         clc = cd[1]
-        g = clc.generators
-        okc = len(g) == 1 and isinstance(g[0].target, ast.Name) and \
-            src(clc.elt) == g[0].target.id and \
-            src(w.expand(g[0].iter, m.ren)) in ('S.grid.area.positions()',
-                                                "S.grid.area.positions('all')")
+        cst = StreamReader(index, f.module, w, m.ren).read(ast.Name(cname, ast.Load()))
+        if cst is None:
+            raise AnalysisError(f'teleport: the destination list `{src(clc)[:80]}` is outside '
+                                f'the grammar of cell streams')
+        okc = cst.kind == 'cells' and cst.grid == 'S.grid'
         rep.check(bool(okc), rule, TRANS, 'teleport', clc.lineno, src(clc)[:160],
                   'destinations are not selected among all positions of the grid',
                   'all positions')
         if not okc:
             continue
-        pv = g[0].target.id
+        pv = 'P'
         ev2 = Evaluator(index, always_inside=('S.agent.position', pv))
         m2 = FnModel(index, f, ['S', 'A'], ev2)
-        cond_f = formula_of(ast.BoolOp(ast.And(), list(g[0].ifs)) if len(g[0].ifs) > 1
-                            else g[0].ifs[0]) if g[0].ifs else ('true',)
-        cond_f = m2.walk.expand_formula(cond_f, m2.ren, stop=[pv])
+        import copy as _copy
+
+        class _O(ast.NodeTransformer):
+            def visit_Name(self, n):
+                if n.id == 'O':
+                    return ast.parse('S.grid[P]', mode='eval').body
+                return n
+        fl_ = [_O().visit(_copy.deepcopy(c)) for c in cst.filters]
+        cond_f = formula_of(ast.BoolOp(ast.And(), fl_) if len(fl_) > 1 else fl_[0]) if fl_ \
+            else ('true',)
         here = cell(POS)
 
         def spec(wd, ev_):
